@@ -48,8 +48,10 @@ impl Emitter {
       0x8b, 0x5f, 0x04, // mov ebx, [rdi + 4]
       0x8b, 0x57, 0x08, // mov edx, [rdi + 8]
       0x8b, 0x4f, 0x0c, // mov ecx, [rdi + 12]
-      0x66, 0x44, 0x8b, 0x67, 0x10, // mov r12w, [rdi + 16]
-      0x66, 0x44, 0x8b, 0x6f, 0x14, // mov r13w, [rdi + 20]
+      // SP and IP are passed to the memory helpers as 64-bit registers, so the
+      // caller's upper bits must not survive in r12 / r13
+      0x44, 0x0f, 0xb7, 0x67, 0x10, // movzx r12d, word [rdi + 16]
+      0x44, 0x0f, 0xb7, 0x6f, 0x14, // movzx r13d, word [rdi + 20]
       0x44, 0x8b, 0x7f, 0x18, // mov r15d, [rdi + 24]
       // jump to the actual code, address stored in rsi
       0xff, 0xe6, // jmp rsi
